@@ -236,10 +236,13 @@ fn show_res_reg<T>(r: Result<T, MockErr>, f: impl Fn(T) -> String) -> String {
 }
 
 fn run_reg_sized<const BITS: u32, const BYTES: usize>(
-    op: &str, asy: bool, addr: i64, reset: &[u8], xor: &[u8], ret: u64, script: &[Entry], pend: &[usize],
+    op: &str, asy: bool, addr: i64, reset: &[u8], xor: &[u8], ret: u64, script: &[Entry], pend: &[usize], hist: &[(String, Entry)],
 ) -> (Vec<String>, String, usize) {
     RESET.with(|r| *r.borrow_mut() = reset.to_vec());
-    let mut mock = Mock::new(script, pend);
+    // `hist`: single-call operations made on the same object before `op` (blocking, one script entry each)
+    let mut full: Vec<Entry> = hist.iter().map(|(_, e)| e.clone()).collect();
+    full.extend(script.iter().cloned());
+    let mut mock = Mock::new(&full, pend);
     let clos = |fs: &mut FS<BITS, BYTES>| {
         xor_cyclic(xor, &mut fs.bits);
         ret
@@ -247,6 +250,13 @@ fn run_reg_sized<const BITS: u32, const BYTES: usize>(
     let (res, polls) = {
         let mut o: RegisterOperation<'_, Mock, i64, FS<BITS, BYTES>, RW> =
             RegisterOperation::new(&mut mock, addr, reset_ctor::<BITS, BYTES>);
+        for (hop, _) in hist {
+            match hop.as_str() {
+                "write" => { let _ = o.write(|_| 0u64); }
+                "wzero" => { let _ = o.write_with_zero(|_| 0u64); }
+                _ => { let _ = o.read(); }
+            }
+        }
         match (op, asy) {
             ("write", false) => (show_res_reg(o.write(clos), |v| format!("ok:{v}")), 0),
             ("wzero", false) => (show_res_reg(o.write_with_zero(clos), |v| format!("ok:{v}")), 0),
@@ -259,11 +269,16 @@ fn run_reg_sized<const BITS: u32, const BYTES: usize>(
             _ => unreachable!(),
         }
     };
-    (mock.log, res, polls)
+    let log = mock.log.iter().skip(hist.len()).cloned().collect();
+    (log, res, polls)
 }
 
 fn run_reg(op: &str, asy: bool, addr: i64, size: u32, reset: &[u8], xor: &[u8], ret: u64, script: &[Entry], pend: &[usize]) -> (Vec<String>, String, usize) {
-    macro_rules! sz { ($($b:literal),*) => { match size { $($b => run_reg_sized::<$b, { ($b + 7) / 8 }>(op, asy, addr, reset, xor, ret, script, pend),)* _ => unreachable!() } } }
+    run_reg_hist(op, asy, addr, size, reset, xor, ret, script, pend, &[])
+}
+
+fn run_reg_hist(op: &str, asy: bool, addr: i64, size: u32, reset: &[u8], xor: &[u8], ret: u64, script: &[Entry], pend: &[usize], hist: &[(String, Entry)]) -> (Vec<String>, String, usize) {
+    macro_rules! sz { ($($b:literal),*) => { match size { $($b => run_reg_sized::<$b, { ($b + 7) / 8 }>(op, asy, addr, reset, xor, ret, script, pend, hist),)* _ => unreachable!() } } }
     sz!(1, 5, 8, 9, 12, 16, 17, 24, 31, 32, 33, 64, 65, 100, 127, 128)
 }
 
@@ -387,6 +402,59 @@ fn run_buf(op: &str, via_trait: bool, asy: bool, addr: i64, buf: &[u8], script: 
     (mock.log, res, out, polls)
 }
 
+/// The history first, then `op`, all on ONE `BufferOperation`; what is reported is the last operation's own
+/// calls, result, buffer and polls.
+fn run_buf_seq(history: &[(String, Vec<u8>, Vec<Entry>)], op: &str, via_trait: bool, asy: bool, addr: i64, buf: &[u8], script: &[Entry], pend: &[usize]) -> (Vec<String>, String, String, usize) {
+    let mut full: Vec<Entry> = vec![];
+    for (_, _, s) in history {
+        full.extend(s.iter().cloned());
+    }
+    let before_script = full.len();
+    full.extend(script.iter().cloned());
+    // the pending pattern applies to the last operation's calls only: the history is made with the blocking methods,
+    // which do not advance the mock's count of awaited calls
+    let _ = before_script;
+    let mut mock = Mock::new(&full, pend);
+    let mut b = buf.to_vec();
+    let (res, out, polls) = {
+        let mut o: BufferOperation<'_, Mock, i64, RW> = BufferOperation::new(&mut mock, addr);
+        for (hop, hbuf, _) in history {
+            let mut hb = hbuf.clone();
+            let _ = std::panic::catch_unwind(std::panic::AssertUnwindSafe(|| match hop.as_str() {
+                "write" => { let _ = o.write(&hb); }
+                "flush" => { let _ = o.flush(); }
+                _ => { let _ = o.read(&mut hb); }
+            }));
+        }
+        match (op, via_trait, asy) {
+            ("write", false, false) => (show_res_reg(o.write(&b), |n| format!("ok:{n}")), "-".to_string(), 0),
+            ("write", true, false) => (show_res_reg(embedded_io::Write::write(&mut o, &b), |n| format!("ok:{n}")), "-".into(), 0),
+            ("write", false, true) => { let (r, p) = block_on(o.write_async(&b)); (show_res_reg(r, |n| format!("ok:{n}")), "-".into(), p) }
+            ("write", true, true) => { let (r, p) = block_on(embedded_io_async::Write::write(&mut o, &b)); (show_res_reg(r, |n| format!("ok:{n}")), "-".into(), p) }
+            ("flush", false, false) => (show_res_reg(o.flush(), |_| "unit".into()), "-".into(), 0),
+            ("flush", true, false) => (show_res_reg(embedded_io::Write::flush(&mut o), |_| "unit".into()), "-".into(), 0),
+            ("flush", false, true) => { let (r, p) = block_on(o.flush_async()); (show_res_reg(r, |_| "unit".into()), "-".into(), p) }
+            ("flush", true, true) => { let (r, p) = block_on(embedded_io_async::Write::flush(&mut o)); (show_res_reg(r, |_| "unit".into()), "-".into(), p) }
+            ("write_all", false, false) => (show_res_reg(o.write_all(&b), |_| "unit".into()), "-".into(), 0),
+            ("write_all", true, false) => (show_res_reg(embedded_io::Write::write_all(&mut o, &b), |_| "unit".into()), "-".into(), 0),
+            ("write_all", false, true) => { let (r, p) = block_on(o.write_all_async(&b)); (show_res_reg(r, |_| "unit".into()), "-".into(), p) }
+            ("write_all", true, true) => { let (r, p) = block_on(embedded_io_async::Write::write_all(&mut o, &b)); (show_res_reg(r, |_| "unit".into()), "-".into(), p) }
+            ("read", false, false) => { let r = o.read(&mut b); (show_res_reg(r, |n| format!("ok:{n}")), hex(&b), 0) }
+            ("read", true, false) => { let r = embedded_io::Read::read(&mut o, &mut b); (show_res_reg(r, |n| format!("ok:{n}")), hex(&b), 0) }
+            ("read", false, true) => { let (r, p) = block_on(o.read_async(&mut b)); (show_res_reg(r, |n| format!("ok:{n}")), hex(&b), p) }
+            ("read", true, true) => { let (r, p) = block_on(embedded_io_async::Read::read(&mut o, &mut b)); (show_res_reg(r, |n| format!("ok:{n}")), hex(&b), p) }
+            ("read_exact", false, false) => { let r = o.read_exact(&mut b); (show_rex(r), hex(&b), 0) }
+            ("read_exact", true, false) => { let r = embedded_io::Read::read_exact(&mut o, &mut b); (show_rex(r), hex(&b), 0) }
+            ("read_exact", false, true) => { let (r, p) = block_on(o.read_exact_async(&mut b)); (show_rex(r), hex(&b), p) }
+            ("read_exact", true, true) => { let (r, p) = block_on(embedded_io_async::Read::read_exact(&mut o, &mut b)); (show_rex(r), hex(&b), p) }
+            _ => unreachable!(),
+        }
+    };
+    // each earlier operation made exactly one call
+    let log = mock.log.iter().skip(history.len()).cloned().collect();
+    (log, res, out, polls)
+}
+
 // ------------------------------------------------------------------ case generation
 
 fn show_script(script: &[Entry], pend: &[usize]) -> String {
@@ -491,6 +559,34 @@ fn main() {
                 }
             }
         }
+        // sequences on ONE RegisterOperation object: the last operation after one or two earlier single-call operations
+        // (a failed one now and then); the model answers for the last operation alone, the history is a note after `#`
+        let seq_reps = if thorough { 6000 } else { 400 };
+        for _ in 0..seq_reps {
+            let op = ["write", "wzero", "read", "modify"][rng.below(4) as usize];
+            let asy = rng.chance(1, 2);
+            let size = REG_SIZES[rng.below(REG_SIZES.len() as u64) as usize];
+            let bytes = ((size + 7) / 8) as usize;
+            let addr = rng.below(1 << 12) as i64;
+            let reset = rand_bytes(&mut rng, bytes);
+            let xl = rng.below(3) as usize;
+            let xor = rand_bytes(&mut rng, xl);
+            let ret = rng.below(100);
+            let hist: Vec<(String, Entry)> = (0..rng.range(1, 3)).map(|_| {
+                let h = ["write", "wzero", "read"][rng.below(3) as usize].to_string();
+                let e = if rng.chance(1, 3) { Entry::Err(rng.below(9) as u32) } else { Entry::Ok(0, rand_bytes(&mut rng, bytes)) };
+                (h, e)
+            }).collect();
+            let script: Vec<Entry> = (0..2).map(|_| if rng.chance(1, 5) { Entry::Err(rng.below(9) as u32) } else { Entry::Ok(0, rand_bytes(&mut rng, bytes)) }).collect();
+            let pend = rand_pend(&mut rng, 2, asy);
+            let note: Vec<String> = hist.iter().map(|(h, e)| format!("{h}{}", if matches!(e, Entry::Err(_)) { "!" } else { "" })).collect();
+            let case = format!("R {op} {} {addr} {size} {} {} {ret} {} #after:{}", asy as u8, hex(&reset), hex(&xor), show_script(&script, &pend), note.join(","));
+            let (op2, reset2, xor2, script2, pend2, hist2) = (op.to_string(), reset.clone(), xor.clone(), script.clone(), pend.clone(), hist.clone());
+            out.emit(format!("regseq_{op}_after_{}", hist.len()), case, move || {
+                let (log, res, polls) = run_reg_hist(&op2, asy, addr, size, &reset2, &xor2, ret, &script2, &pend2, &hist2);
+                fmt_out(&log, &res, "-", polls)
+            });
+        }
         // exhaustive suspension patterns for modify_async (two calls x 0..3 pendings) on one size
         for p0 in 0..4usize {
             for p1 in 0..4usize {
@@ -577,6 +673,43 @@ fn main() {
                     }
                 }
             }
+        }
+    }
+
+    // Sequences of operations on ONE operation object (C10, C05): the runtime objects hold an interface and an
+    // address and nothing else, so an operation behaves the same whatever was done with the object before
+    // (DDV.Props.C05.operation_independent_of_past). Each sequence case is the LAST operation of a short history made
+    // on one object; the model answers for that operation alone, the history is a note after `#`.
+    if which == "buf" || which == "all" {
+        let reps = if thorough { 20000 } else { 1500 };
+        let ops = ["write", "flush", "read", "write_all", "read_exact"];
+        for _ in 0..reps {
+            let asy = rng.chance(1, 2);
+            let via_trait = rng.chance(1, 2);
+            let addr = rng.below(1 << 12) as i64;
+            let nprev = rng.range(1, 3) as usize;
+            // earlier operations: each with its own small script (an error now and then: a retry after a failure)
+            let mut history: Vec<(String, Vec<u8>, Vec<Entry>)> = vec![];
+            for _ in 0..nprev {
+                // (single-call operations: each makes exactly one interface call and uses up exactly its one script entry)
+                let op = ["write", "flush", "read"][rng.below(3) as usize];
+                let len = rng.range(0, 6) as usize;
+                let buf = if op.starts_with("read") { vec![0xEE; len] } else { rand_bytes(&mut rng, len) };
+                let script = if rng.chance(1, 3) { vec![Entry::Err(rng.below(9) as u32)] } else { vec![Entry::Ok(len.max(1), vec![])] };
+                history.push((op.to_string(), buf, script));
+            }
+            let op = ops[rng.below(ops.len() as u64) as usize];
+            let len = rng.range(0, 8) as usize;
+            let buf = if op.starts_with("read") { vec![0xEE; len] } else { rand_bytes(&mut rng, len) };
+            let script: Vec<Entry> = match rng.below(4) { 0 => vec![Entry::Err(rng.below(9) as u32)], 1 => vec![], _ => vec![Entry::Ok(len.max(1), vec![])] };
+            let pend = rand_pend(&mut rng, script.len() + 1, asy);
+            let note: Vec<String> = history.iter().map(|(o, b, s)| format!("{o}({}){}", b.len(), if matches!(s.first(), Some(Entry::Err(_))) { "!" } else { "" })).collect();
+            let case = format!("B {op} {} {} {addr} {} {} #after:{}", if via_trait { "trait" } else { "inherent" }, asy as u8, hex(&buf), show_script(&script, &pend), note.join(","));
+            let (op2, buf2, script2, pend2, hist2) = (op.to_string(), buf.clone(), script.clone(), pend.clone(), history.clone());
+            out.emit(format!("bufseq_{op}_after_{}", history.len()), case, move || {
+                let (log, res, b, polls) = run_buf_seq(&hist2, &op2, via_trait, asy, addr, &buf2, &script2, &pend2);
+                fmt_out(&log, &res, &b, polls)
+            });
         }
     }
 
